@@ -1610,3 +1610,28 @@ import copy as _copy
 @model(_copy.deepcopy, doc="deepcopy: fresh isomorphic object graph (native; symbolic leaves are immutable and shared)")
 def _m_deepcopy(interp, f, args, kw):
     return _copy.deepcopy(*args, **kw)
+
+
+@model(np.linalg.norm, doc="np.linalg.norm of a vector holding symbolic numbers: sqrt(sum |x_i|^2) (2-norm of the flattened array)")
+def _m_norm(interp, f, args, kw):
+    x = args[0]
+    if isinstance(x, np.ndarray) and x.dtype == object and has_sym(x, 1) and len(args) == 1 and not kw:
+        tot = Poly.const(0)
+        for v in x.flat:
+            v = Poly._coerce(v)
+            tot = tot + (v * v.conj() if not v.is_real_valued() else v * v)
+        return tot ** 0.5
+    return f(*args, **kw)
+
+
+@model(np.random.random, doc="np.random.random(): an unknown real u with 0 <= u < 1 (the draw is opaque)")
+def _m_random(interp, f, args, kw):
+    if have_ctx() and current().symbolic and not args and not kw and getattr(current(), "opaque_random", False):
+        import z3
+        c = current()
+        u = c.fresh_real("u")
+        c.side.append(z3.And(u >= 0, u < 1))
+        p = Poly.atom(u, name=str(u))
+        c.inputs[str(u)] = p
+        return p
+    return f(*args, **kw)
